@@ -18,6 +18,10 @@ def _reexec_if_needed() -> None:
         "RUST_BACKTRACE": "0",
         "PYTHONWARNINGS": "ignore",
     }
+    # TensorFlow's autograph drops a generated source file per traced function
+    # into the temp directory: give every check its own, removed at exit
+    want["TMPDIR"] = os.environ.get("VERIF_TMPDIR") or \
+        f"/dev/shm/verif-tmp-{os.getpid()}"
     if all(os.environ.get(k) == v for k, v in want.items()):
         return
     env = dict(os.environ)
@@ -27,6 +31,14 @@ def _reexec_if_needed() -> None:
 
 def main() -> int:
     _reexec_if_needed()
+    tmpdir = os.environ["TMPDIR"]
+    os.makedirs(tmpdir, exist_ok=True)
+    if not os.environ.get("VERIF_TMPDIR"):
+        # sub-processes of this check share (and do not remove) the directory
+        os.environ["VERIF_TMPDIR"] = tmpdir
+        import atexit
+        import shutil
+        atexit.register(shutil.rmtree, tmpdir, True)
     # `python simlib/main.py` puts simlib/ first on sys.path; we want /verif.
     sys.path[0] = VERIF
     import warnings
